@@ -144,6 +144,7 @@ func (p *instancePool) Run(ctx context.Context) error {
 
 	rh, err := p.runAsync(ctx)
 	if err != nil {
+		p.onWaitDone()
 		return err
 	}
 
